@@ -209,30 +209,29 @@ impl<K, V, A: Allocator> CaoHashMap<K, V, A> {
         debug_assert!(h != 0, "Bad handle, 0 values are reserved");
 
         // find the bucket
-        let hashes = self.hashes();
-        let keys = self.keys.as_ptr();
-        let values = self.values.as_ptr();
-
-        let i = self.find_ind(h, &key);
-        if hashes[i] != 0 {
-            debug_assert_eq!(hashes[i], h);
+        let mut i = self.find_ind(h, &key);
+        if self.hashes()[i] != 0 {
+            debug_assert_eq!(self.hashes()[i], h);
             // delete the old entry
             if std::mem::needs_drop::<K>() {
-                std::ptr::drop_in_place(keys.add(i));
+                std::ptr::drop_in_place(self.keys.as_ptr().add(i));
             }
             if std::mem::needs_drop::<V>() {
-                std::ptr::drop_in_place(values.add(i));
+                std::ptr::drop_in_place(self.values.as_ptr().add(i));
             }
         } else {
+            // no grow is triggered if the key overrides an existing value
+            // grow before writing the new entry: if the allocation fails the map is unchanged
+            // and still has an empty bucket, which lookups rely on to terminate
+            if Self::needs_grow(self.count + 1, self.capacity) {
+                self.grow()?;
+                i = self.find_ind(h, &key);
+            }
             self.hashes_mut()[i] = h;
             self.count += 1;
         }
-        std::ptr::write(keys.add(i), key);
-        std::ptr::write(values.add(i), value);
-        // delaying grow so that no grow is triggered if the key overrides an existing value
-        if Self::needs_grow(self.count, self.capacity) {
-            self.grow()?;
-        }
+        std::ptr::write(self.keys.as_ptr().add(i), key);
+        std::ptr::write(self.values.as_ptr().add(i), value);
         Ok(())
     }
 
@@ -273,7 +272,14 @@ impl<K, V, A: Allocator> CaoHashMap<K, V, A> {
             if hash != 0 {
                 let key = std::ptr::read(keys.as_ptr().add(i));
                 let val = std::ptr::read(values.as_ptr().add(i));
-                self.insert_with_hint(hash, key, val)?;
+                // the keys are unique and the new buffer is larger than their number: move
+                // them without growing again, so that this loop can not fail half way
+                let j = self.find_ind(hash, &key);
+                debug_assert_eq!(self.hashes()[j], 0);
+                self.hashes_mut()[j] = hash;
+                self.count += 1;
+                std::ptr::write(self.keys.as_ptr().add(j), key);
+                std::ptr::write(self.values.as_ptr().add(j), val);
             }
         }
 
